@@ -271,7 +271,10 @@ class Check:
             if replay.get('class') == k['match']:
                 self.known_hits[k['id']] = self.known_hits.get(k['id'], 0) + 1
                 return False
-        if len(self.violations) >= 5:
+        # replay files are kept for the first 5 violations WITH a failing input and the first 5 without:
+        # a run of correspondence-only failures must not crowd out a later failure that has an input
+        n_same = sum(1 for _, p, ni in self.violations if p is not None and ni == no_input)
+        if n_same >= 5:
             self.violations.append((what, None, no_input))
             return True
         replay = dict(replay)
@@ -335,7 +338,8 @@ class Check:
             if k['id'] in self.known_hits:
                 print(f"KNOWN-FINDING: property={self.pid} {k['what']} [{k['id']}; {self.known_hits[k['id']]} case(s)]")
         shown = 0
-        for what, p, no_input in self.violations:
+        # violations with a failing input first
+        for what, p, no_input in sorted(self.violations, key=lambda v: v[2]):
             if p is None:
                 continue
             tail = ' no-failing-input-found' if no_input else ''
